@@ -733,20 +733,28 @@ func runPassOrder(c *Ctx, r *Rep) {
 		return
 	}
 	r.analysed("(compile.Instructions).Pass")
-	var loop *ast.RangeStmt
+	// the loop over the instructions: a range loop or a counted one
+	var loop ast.Node
+	var loopBody *ast.BlockStmt
 	ast.Inspect(fd.Body, func(n ast.Node) bool {
-		if rs, ok := n.(*ast.RangeStmt); ok && loop == nil {
-			loop = rs
+		if loop != nil {
+			return false
+		}
+		switch x := n.(type) {
+		case *ast.RangeStmt:
+			loop, loopBody = x, x.Body
+		case *ast.ForStmt:
+			loop, loopBody = x, x.Body
 		}
 		return loop == nil
 	})
 	if loop == nil {
-		r.undecided("passorder|loop", fd.Pos(), "no range loop over the instructions found")
+		r.undecided("passorder|loop", fd.Pos(), "no loop over the instructions found")
 		return
 	}
 	first := map[string]token.Pos{}
 	last := map[string]token.Pos{}
-	ast.Inspect(loop.Body, func(n ast.Node) bool {
+	ast.Inspect(loopBody, func(n ast.Node) bool {
 		call, ok := n.(*ast.CallExpr)
 		if !ok {
 			return true
